@@ -86,6 +86,11 @@ CHECKS = {
          'differential (metamorphic) property testing between repeated and interleaved executions',
          'DESIGN.md 4/C19',
          'Trusts the scripted contracts and the reference interpreter under harness/src/engines/tree (written from the property statements, clone/restore rollback), cosmwasm-std types/serialisation, and instantiate2_address. Generator bounds: depth<=4 (6 thorough), <=14 (40) nodes per tree.'),
+ "C17": ("routing", "exploration",
+         "Every router slot holds a recording module that delegates to the crate's real keeper, AcceptingModule or FailingModule per generated configuration; generated messages (16 kinds), queries (9 kinds) and sudo calls are sent from top level, from chains of 1-3 contracts written for the chain's message type and from chains of Empty-typed contracts lifted by ContractWrapper; exactly-one delivery to the configured slot with sender and payload intact, caller-visible Ok/Err, rollback of failed modules (marker keys, sibling writes) and reply behaviour are asserted; the kind x origin x mode x reply_on cross product is enumerated in every run.",
+         "property-based testing over module configurations with recording test doubles + exhaustive small-scope enumeration of (kind, origin, mode) cells",
+         "DESIGN.md 4/C17",
+         "Recording modules and puppets are written in the harness; with a real keeper in a slot only requests that keeper supports are sent."),
 }
 
 NOT_YET = "check not built yet in this revision of /verif (work in progress; planned, see DESIGN.md section 4)"
